@@ -123,13 +123,15 @@ class NodeSym(SymVal):
 
 class Opaque(SymVal):
     "a field whose content is irrelevant here; only listed methods may be called (frame: they touch nothing else)"
-    def __init__(self, label, methods): self.label, self.methods = label, methods
+    def __init__(self, label, methods): self.label, self.methods = label, methods; self.copy_of = None; self.copy_kw = None
     def sym_getattr(self, it, name):
         if name in self.methods:
             def m(it, *a, **k):
                 it.path.notes.setdefault('calls', []).append(f'{self.label}.{name}')
                 r = self.methods[name]
-                return r(it, *a, **k) if callable(r) else r
+                out = r(it, *a, **k) if callable(r) else r
+                if name == 'copy' and isinstance(out, Opaque): out.copy_of, out.copy_kw = self, dict(k)      # the result is a copy of THIS object's content
+                return out
             return Contract(m, f'{self.label}.{name}')
         raise Outside(f'{self.label}.{name}')
 
